@@ -58,6 +58,8 @@ func Pick[T any](r *Rand, xs []T) T { return xs[r.Intn(len(xs))] }
 type Case struct {
 	Header string
 	Ops    []string
+	// Scenario is set by Tracer engines: the generated scenario this trace was recorded from.
+	Scenario *Case
 }
 
 func (c Case) Hash() string {
@@ -80,6 +82,15 @@ type Engine interface {
 	Rule() string
 }
 
+// Tracer is implemented by trace-validation engines: the generated case is a SCENARIO that
+// is run on the real system; what is compared with the driver is the totally ordered log
+// the run recorded (the derived case: one op line per logged action, the implementation's
+// recorded result as output line). The driver replays the log on the model and evaluates the
+// property's monitors on every prefix.
+type Tracer interface {
+	Trace(t *testing.T, scenario Case) (Case, []string)
+}
+
 // Corpus is implemented by engines that ship fixed cases (minimised past failures,
 // enumerations) which always run first.
 type Corpus interface {
@@ -96,6 +107,9 @@ type Divergence struct {
 	First    int      `json:"first_divergence"`
 	Shrunk   bool     `json:"shrunk"`
 	CaseHash string   `json:"case_hash"`
+	// trace-validation engines: the scenario the trace was recorded from (replayable)
+	ScenarioHeader string   `json:"scenario_header,omitempty"`
+	Scenario       []string `json:"scenario,omitempty"`
 }
 
 // Result is what an engine run reports to bin/check.
@@ -339,8 +353,18 @@ func RunEngine(t *testing.T, e Engine, seed uint64, thorough bool, resultPath st
 	impl := make([][]string, len(cases))
 	seen := map[string]bool{}
 
+	tracer, isTracer := e.(Tracer)
+
 	for i, c := range cases {
-		impl[i] = safeExec(t, e, c)
+		if isTracer {
+			sc := c
+			cases[i], impl[i] = tracer.Trace(t, sc)
+			cases[i].Scenario = &sc
+			c = cases[i]
+		} else {
+			impl[i] = safeExec(t, e, c)
+		}
+
 		res.Ops += len(c.Ops)
 
 		for _, op := range c.Ops {
@@ -383,10 +407,21 @@ func RunEngine(t *testing.T, e Engine, seed uint64, thorough bool, resultPath st
 				continue // keep the report small; the count is in Extra
 			}
 
-			sc, si, sd, sf := shrink(t, e, spec, c)
+			sc, si, sd, sf := c, impl[i], drv[i], d
+			if !isTracer {
+				sc, si, sd, sf = shrink(t, e, spec, c)
+			}
+
 			dv := Divergence{
 				Against: map[bool]string{false: "model", true: "spec"}[spec],
 				Header:  sc.Header, Ops: sc.Ops, Impl: si, Driver: sd, First: sf, Shrunk: len(sc.Ops) < len(c.Ops), CaseHash: c.Hash(),
+			}
+
+			if c.Scenario != nil {
+				dv.ScenarioHeader, dv.Scenario = c.Scenario.Header, c.Scenario.Ops
+				// keep the report readable: the log up to a little past the divergence
+				cut := min(len(dv.Ops), sf+3)
+				dv.Ops, dv.Impl, dv.Driver = dv.Ops[:cut], dv.Impl[:min(cut, len(dv.Impl))], dv.Driver[:min(cut, len(dv.Driver))]
 			}
 
 			if sf < 0 { // flaky: did not reproduce while shrinking; report the original
